@@ -25,6 +25,7 @@ import (
 
 type replayCase struct {
 	Op       string      `json:"op"`
+	Op2      string      `json:"op2,omitempty"` // pair family: second instruction of the function (operands: op's then op2's)
 	Engine   string      `json:"engine"`
 	Form     string      `json:"form"`
 	Operands [][2]string `json:"operands"` // lo, hi (hex)
@@ -68,6 +69,9 @@ func doReplay(path string, ops []*rs.Op) {
 	}
 	if op == nil {
 		fw.Fatalf("replay: unknown op %q", rc.Op)
+	}
+	if rc.Op2 != "" {
+		replayPair(rc, op, ops)
 	}
 	var t Tuple
 	for k, o := range rc.Operands {
@@ -246,6 +250,58 @@ func main() {
 			samples.Add(map[string]any{"op": op.Name, "operands": fmtIn(op, t), "reference": wantString(op, op.Eval(t[0], t[1], t[2])), "forms": len(plain) + len(consts)})
 		}
 	})
+	// ---- pairs of instructions in one function (shared per-function compiler state)
+	pairStats := map[string]int64{}
+	if only == "" || os.Getenv("C05_PAIRS") != "" {
+		pops := buildPairOps(ops)
+		if only != "" {
+			var f []*pairOp
+			for _, p := range pops {
+				if strings.Contains(p.op.Name, only) {
+					f = append(f, p)
+				}
+			}
+			pops = f
+		}
+		pairStats["instructions"] = int64(len(pops))
+		for _, p := range pops {
+			pairStats["reduced_tuples_total"] += int64(len(p.tuples))
+		}
+		fw.Parallel(len(pops), nw, func(i int) {
+			if run.Expired() {
+				run.Capped("budget (pairs)")
+				return
+			}
+			w := <-pool
+			defer func() { pool <- w }()
+			a := pops[i]
+			calls := w.runPairs(a, pops, st, func(pm pairMismatch) {
+				sig := fmt.Sprintf("pair:%s|%s:%s:%s", pm.A.op.Name, pm.B.op.Name, engineNames[pm.engine], pm.which)
+				rc := replayCase{Op: pm.A.op.Name, Op2: pm.B.op.Name, Engine: engineNames[pm.engine], Form: "pair", Got: pm.got, Want: pm.wantText}
+				if pm.which == "first" || pm.which == "second" {
+					ta, tb := pm.A.tuples[pm.ia], pm.B.tuples[pm.ib]
+					for k := range pm.A.op.In {
+						rc.Operands = append(rc.Operands, [2]string{fmt.Sprintf("%#x", ta[k].Lo), fmt.Sprintf("%#x", ta[k].Hi)})
+					}
+					for k := range pm.B.op.In {
+						rc.Operands = append(rc.Operands, [2]string{fmt.Sprintf("%#x", tb[k].Lo), fmt.Sprintf("%#x", tb[k].Hi)})
+					}
+				}
+				run.Violation(sig, pm.text(), rc)
+				outcomes.Inc("mismatch")
+			})
+			mu.Lock()
+			pairStats["ordered_pairs"] += int64(len(pops))
+			pairStats["function_executions"] += calls
+			formsSeen["pair"] += 2 * calls
+			mu.Unlock()
+		})
+		if len(pops) > 2 {
+			a, b := pops[len(pops)/3], pops[2*len(pops)/3]
+			samples.Add(map[string]any{"pair": []string{a.op.Name, b.op.Name}, "operands_first": fmtIn(a.op, a.tuples[0]), "operands_second": fmtIn(b.op, b.tuples[0]),
+				"reference": []string{wantString(a.op, a.exp[0]), wantString(b.op, b.exp[0])}})
+		}
+	}
 	// ---- thorough-tier streamed enumerations
 	bigStats := map[string]map[string]int64{}
 	if run.Thorough() && only == "" || os.Getenv("C05_BIG") != "" {
@@ -354,6 +410,7 @@ func main() {
 		"operand_forms_evaluations": formsSeen,
 		"chunk":                     chunkN,
 	}
+	bounds["pairs_in_one_function"] = pairStats
 	if len(bigStats) > 0 {
 		bounds["streamed_enumerations"] = bigStats
 	}
@@ -392,6 +449,49 @@ func signature(op *rs.Op, m mismatch, t Tuple, class string) string {
 		return fmt.Sprintf("icmp(const0,and)→branch:%s:%s", m.Engine, baseName(op))
 	}
 	return fmt.Sprintf("%s:%s:%s:%s", m.Op, m.Engine, m.Form, class)
+}
+
+// replayPair re-executes one function of the pair family.
+func replayPair(rc replayCase, a *rs.Op, ops []*rs.Op) {
+	var b *rs.Op
+	for _, o := range ops {
+		if o.Name == rc.Op2 {
+			b = o
+		}
+	}
+	if b == nil || len(rc.Operands) != len(a.In)+len(b.In) {
+		fw.Fatalf("replay: bad pair case")
+	}
+	parse := func(o [2]string) rs.V {
+		lo, _ := strconv.ParseUint(strings.TrimPrefix(o[0], "0x"), 16, 64)
+		hi, _ := strconv.ParseUint(strings.TrimPrefix(o[1], "0x"), 16, 64)
+		return rs.V{Lo: lo, Hi: hi}
+	}
+	var ta, tb Tuple
+	for k := range a.In {
+		ta[k] = parse(rc.Operands[k])
+	}
+	for k := range b.In {
+		tb[k] = parse(rc.Operands[len(a.In)+k])
+	}
+	pa := &pairOp{op: a, tuples: []Tuple{ta}, exp: []rs.Res{a.Eval(ta[0], ta[1], ta[2])}}
+	pb := &pairOp{op: b, tuples: []Tuple{tb}, exp: []rs.Res{b.Eval(tb[0], tb[1], tb[2])}}
+	fmt.Printf("replay pair: one function computing %s(%s) then %s(%s)\n  reference: %s ; %s\n", a.Name, fmtIn(a, ta), b.Name, fmtIn(b, tb), wantString(a, pa.exp[0]), wantString(b, pb.exp[0]))
+	w := newWorker()
+	defer w.close()
+	failed := false
+	w.runPairs(pa, []*pairOp{pb}, &stats{}, func(pm pairMismatch) {
+		fmt.Printf("  %s: %s result is %s (MISMATCH)\n", engineNames[pm.engine], pm.which, pm.got)
+		if rc.Engine == "" || rc.Engine == engineNames[pm.engine] {
+			failed = true
+		}
+	})
+	if failed {
+		fmt.Println("replay: still fails")
+		os.Exit(1)
+	}
+	fmt.Println("replay: both engines agree with the reference")
+	os.Exit(0)
 }
 
 func topN(m map[string]int64, n int) map[string]int64 {
